@@ -1,65 +1,61 @@
 #!/usr/bin/env python3
-"""Run the registered quick checks against every seeded mutation under /verif/seeded and record which rule reports it.
+"""Run the registered checks against every seeded mutation under /verif/seeded and record which rule reports it.
 
-usage: catch_matrix.py [--tier quick|thorough] [--also C08,...] [seed ...]
-For each seed: git -C /repo apply patch.diff; ./verif check <property>; git -C /repo checkout -- include development.
-Refuses to start when /repo has local modifications.  Results: seeded/CATCH.json and `caught_by` in each meta.json.
-Never used by a registered check.
+usage: catch_matrix.py [--tier quick|thorough] [--also C08,...] [--jobs N] [--keep-pool] [seed ...]
+Each patch is applied in a scratch worktree of /repo at HEAD (tools/pool.py; /repo itself and /verif/evidence stay untouched), the check of
+the seed's property (plus --also) is run against that tree, and the worktree is reverted.
+Results: seeded/CATCH.json and `caught_by` in each meta.json.  Exit 1 if a seed is missed.  Never used by a registered check.
 """
-import json, os, re, subprocess, sys
-
-V = "/verif"
-R = "/repo"
-
-
-def sh(cmd, cwd=None):
-    r = subprocess.run(cmd, shell=True, cwd=cwd, stdout=subprocess.PIPE, stderr=subprocess.STDOUT, text=True)
-    return r.returncode, r.stdout
+import json, os, sys
+from concurrent.futures import ThreadPoolExecutor
+sys.path.insert(0, os.path.dirname(os.path.abspath(__file__)))
+from pool import Pool, V
 
 
 def main():
     args = sys.argv[1:]
-    tier = "quick"
-    also = []
+    tier, also, jobs, keep = "quick", [], 6, False
     if "--tier" in args:
         i = args.index("--tier"); tier = args[i + 1]; del args[i:i + 2]
     if "--also" in args:
         i = args.index("--also"); also = args[i + 1].split(","); del args[i:i + 2]
+    if "--jobs" in args:
+        i = args.index("--jobs"); jobs = int(args[i + 1]); del args[i:i + 2]
+    if "--keep-pool" in args:
+        args.remove("--keep-pool"); keep = True
     seeds = args or sorted(d for d in os.listdir(V + "/seeded") if os.path.isdir(V + "/seeded/" + d))
-    rc, out = sh("git status --porcelain -- include development test", cwd=R)
-    if out.strip():
-        sys.exit("refusing: /repo has local modifications:\n" + out)
     path = V + "/seeded/CATCH.json"
     res = json.load(open(path)) if os.path.exists(path) else {}
-    head = sh("git rev-parse --short HEAD", cwd=R)[1].strip()
-    for s in seeds:
+    pool = Pool(min(jobs, len(seeds)))
+
+    def one(s):
         d = V + "/seeded/" + s
         meta = json.load(open(d + "/meta.json"))
         prop = meta.get("breaks_property") or meta.get("property") or s.split("-")[0]
-        rc, out = sh("git apply %s/patch.diff" % d, cwd=R)
-        if rc != 0:
-            res[s] = {"error": "patch does not apply to %s: %s" % (head, out[:200])}
-            print(s, "PATCH DOES NOT APPLY")
-            continue
-        entry = {"repo_head": head, "tier": tier, "checks": {}}
-        try:
-            for p in [prop] + [a for a in also if a != prop]:
-                rc, out = sh("./verif check %s --tier %s" % (p, tier), cwd=V)
-                rules = sorted(set(re.findall(r"\[(C\d\d\.[\w-]+)\]", out)))
-                first = [l.strip()[:300] for l in out.splitlines() if re.search(r"\[C\d\d\.[\w-]+\]\s*$", l)][:3]
-                entry["checks"][p] = {"exit": rc, "rules": rules, "reports": first}
-        finally:
-            sh("git checkout -- include development test", cwd=R)
-        own = entry["checks"][prop]
-        entry["caught"] = own["exit"] == 1
-        entry["caught_by"] = own["rules"]
-        res[s] = entry
-        meta["caught_by"] = {"check": "./verif check %s --tier %s" % (prop, tier), "exit": own["exit"], "rules": own["rules"], "reports": own["reports"], "repo_head": head}
-        json.dump(meta, open(d + "/meta.json", "w"), indent=1)
-        print(s, "exit=%d" % own["exit"], ",".join(own["rules"]) or "-", flush=True)
-        json.dump(res, open(path, "w"), indent=1, sort_keys=True)
-    rc, out = sh("git status --porcelain -- include development test", cwd=R)
-    assert not out.strip(), out
+        r = pool.run(d + "/patch.diff", [prop] + [a for a in also if a != prop], tier)
+        return s, prop, meta, r
+
+    missed = 0
+    try:
+        with ThreadPoolExecutor(pool.n) as ex:
+            for s, prop, meta, r in ex.map(one, seeds):
+                if "error" in r:
+                    res[s] = r
+                    print(s, "ERROR", r["error"][:200], flush=True)
+                    missed += 1
+                    continue
+                own = r[prop]
+                res[s] = {"repo_head": pool.head[:7], "tier": tier, "checks": r, "caught": own["exit"] == 1, "caught_by": own["rules"]}
+                meta["caught_by"] = {"check": "./verif check %s --tier %s" % (prop, tier), "exit": own["exit"], "rules": own["rules"], "reports": own["reports"],
+                                     "repo_head": pool.head[:7]}
+                json.dump(meta, open(V + "/seeded/" + s + "/meta.json", "w"), indent=1)
+                missed += own["exit"] != 1
+                print(s, "exit=%d" % own["exit"], ",".join(own["rules"]) or "-", flush=True)
+                json.dump(res, open(path, "w"), indent=1, sort_keys=True)
+    finally:
+        if not keep:
+            pool.remove()
+    sys.exit(1 if missed else 0)
 
 
 if __name__ == "__main__":
